@@ -85,6 +85,10 @@ func (fsEngine) Gen(r *Rand, tier string) any {
 	for f := range chainFiles {
 		add(f, "file", "")
 	}
+	// outside names that are proper prefixes of the root's name
+	add("roo", "file", "")
+	add("ro", "dir", "")
+	add("ro/f0.lisp", "file", "")
 	add("root/f1.lisp", "file", "") // decoy: what a sibling load from root/a finds when resolved against the wrong directory
 	add("outside/f2.lisp", "file", "")
 	if !c.MemFS {
